@@ -182,7 +182,7 @@ Proof.
   induction ops as [|o ops IH]; intros ros m rs Hrs Hreal.
   - destruct ros; [|contradiction]. exists rs. cbn [final fold_left]. auto.
   - destruct ros as [|ro ros]; [destruct o; contradiction|].
-    destruct o as [ | | | | | | | | | | | | | |lang0 patterns name kind k cur|lang0 name0| | ];
+    destruct o as [ | | | | | | | | | | | | | |lang0 patterns name kind k cur|lang0 name0| | | ];
       try contradiction; destruct ro as [ps a|name']; try contradiction.
     + cbn [realises] in Hreal. destruct Hreal as (-> & -> & (ps0 & Htok & ->) & Hreal).
       pose proof (add_rule_spec ck m lang patterns name kind k cur ps0 Htok) as S. cbv zeta in S.
